@@ -7,7 +7,7 @@
    iterator API on ARBITRARY tapes; Interface() needs one fact about the tape
    that Deserialize is proved to establish, also into a reused destination). *)
 From SJ Require Import Model.Base Model.RefTables Model.Tape Model.Iter Model.Walk Model.Marshal Model.Serialize Proofs.DeserSafe
-     Proofs.ApiTotalBase Proofs.ApiTotalWalk Proofs.ApiTotalFinal Tie.GoTablesTie Tie.SerializeTie.
+     Proofs.ApiTotalBase Proofs.ApiTotalParse Proofs.ApiTotalWalk Proofs.ApiTotalFinal Tie.GoTablesTie Tie.SerializeTie.
 Open Scope N_scope.
 
 Theorem C19_deser_blob_no_crash : forall src, deser_blob src <> DCrash /\ deser_blob src <> DFuel.
@@ -44,11 +44,19 @@ Definition C19_deser_core_result_total := deser_core_result_total.
 Theorem C19_any_tape_walk_marshal_find : forall pj,
   fine (walk_doc pj) /\ fine (marshal_iter pj (iter0 pj)) /\ forall path, fine (find_element pj (iter0 pj) path).
 Proof. intros pj. split; [apply walk_doc_fine|]. split; [apply marshal_doc_fine|apply find_element_doc_fine]. Qed.
-(* Interface(): under the one condition Deserialize establishes; and a tape violating it on
-   which the model runs out of fuel (the code loops): not a Deserialize result *)
+(* Object.Parse (every member collected without descending into it) from any reachable
+   object cursor on any tape: an error or a list, never a panic, never non-termination.
+   False before fix F19 (a member whose open tag points back at its own key). *)
+Theorem C19_object_parse_total : forall pj i o, iter_ok pj i -> iter_object i = Ok o -> fine (obj_parse pj o).
+Proof.
+  intros pj i o Hi Ho. eapply okP_fine. apply obj_parse_total. eapply object_closed; eassumption.
+Qed.
+(* Interface(): under the one condition Deserialize establishes; the tape violating it on
+   which the code looped before fix F19 is an error now *)
 Definition C19_interface_doc_fine := interface_doc_fine.
-Definition C19_interface_needs_forward_arrays := backarr_interface.
+Definition C19_backward_member_array_is_an_error := backarr_interface.
 
+Print Assumptions C19_object_parse_total.
 Print Assumptions C19_deser_blob_no_crash.
 Print Assumptions C19_deserialize_result_total.
 Print Assumptions C19_deser_core_no_crash.
